@@ -100,7 +100,7 @@ def slot_fold(prog, f, alloc_answer=70000, nulls=()):
     """Fold a function stored in an allocation slot against recording stubs of the detector and of SimpleMutex, with
     local objects modelled: constructors and (also on unwinding) destructors of the lock types are run, whichever
     classes and helpers the locking is spread over. Returns the chronological list of events:
-    ("lock", mutex, frame) | ("unlock", mutex) | ("getter", name, locked) | ("detector", method, args, locked),
+    ("acquired", mutex, frame) | ("released", mutex) | ("getter", name, locked) | ("detector", method, args, locked),
     where `locked` says whether the global detector's mutex is held at that moment."""
     from cpv.ceval import Evaluator, Unknown
     GETTERS = {"getCurrentNewAllocator": 101, "getCurrentNewArrayAllocator": 102, "getCurrentMallocAllocator": 103}
@@ -133,11 +133,11 @@ def slot_fold(prog, f, alloc_answer=70000, nulls=()):
         elif nm == "SimpleMutex::Lock":
             mx = args[0] if args else None
             held[mx] = held.get(mx, 0) + 1
-            events.append(("lock", mx, frames[-1]))
+            events.append(("acquired", mx, frames[-1]))
         elif nm == "SimpleMutex::Unlock":
             mx = args[0] if args else None
             held[mx] = held.get(mx, 0) - 1
-            events.append(("unlock", mx))
+            events.append(("released", mx))
         elif nm in GETTERS:
             events.append(("getter", nm, held.get(MUTEX_OF_DETECTOR, 0) > 0))
         elif nm.startswith("MemoryLeakDetector::") and nm.split("::")[-1] in ("allocMemory", "deallocMemory", "reallocMemory", "invalidateMemory"):
@@ -304,7 +304,7 @@ def check(ctx, run):
                 run.broke("C10.R2: the functions of slot %s cannot be folded: %s" % (s, u))
                 why = None
                 break
-            locks = [e for e in et if e[0] == "lock" and e[1] == MUTEX_OF_DETECTOR]
+            locks = [e for e in et if e[0] == "acquired" and e[1] == MUTEX_OF_DETECTOR]
             unlocked = [e for e in et if e[0] in ("getter", "detector") and not e[-1]]
             tag = (" (with %s == NULL)" % nulls[0]) if nulls else ""
             if not locks and work(et):
@@ -343,8 +343,8 @@ def check(ctx, run):
             except Unknown as u:
                 run.broke("C10.R3: the thread-safe function of slot %s cannot be folded: %s" % (s_, u))
                 continue
-            lk = [e[1] for e in et if e[0] == "lock"]
-            ul = [e[1] for e in et if e[0] == "unlock"]
+            lk = [e[1] for e in et if e[0] == "acquired"]
+            ul = [e[1] for e in et if e[0] == "released"]
             why = ""
             if nulls and not [e for e in et if e[0] in ("getter", "detector")] and not lk and not ul:
                 pass        # (a NULL argument handled without touching the detector needs no lock)
@@ -352,10 +352,10 @@ def check(ctx, run):
                 why = "locks %s; expected exactly the mutex of MemoryLeakWarningPlugin::getGlobalDetector() once" % (lk,)
             elif ul != [MUTEX_OF_DETECTOR]:
                 why = "leaves by %s with the mutex unlocked %d times (unlocks %s)" % (endt, len(ul), ul)
-            elif [e[0] for e in et if e[0] in ("lock", "unlock")] != ["lock", "unlock"]:
+            elif [e[0] for e in et if e[0] in ("acquired", "released")] != ["acquired", "released"]:
                 why = "unlock precedes lock"
             run.ob("R3", "slot %s (detector answers %s%s): locks the global detector's mutex once and releases it once by the time it %ss" % (s_, "a block" if answer else "NULL", (", %s == NULL" % nulls[0]) if nulls else "", endt), ft.site, not why,
-                   witness=[list(map(str, e)) for e in et if e[0] in ("lock", "unlock")], what=why)
+                   witness=[list(map(str, e)) for e in et if e[0] in ("acquired", "released")], what=why)
     gm = prog.fn("MemoryLeakDetector::getMutex")
     run.analysed(gm)
     rets = [render(gm, gm.node(n.get("value"))) for n in gm.walk() if n["k"] == "ReturnStmt"]
